@@ -51,10 +51,19 @@ def run(res, tier, build_ok):
         for rc in (0x70, 0x71, 0x72, 0x73, rng.randrange(128)):
             bufs.append(mk(rc, rng.randrange(16), rng.getrandbits(8), rng.getrandbits(8), length))
     reqs = []
+    # phase 1: construct every error object; phase 2: only then inspect/print them, so that an error
+    # object is looked at after many others were created (no shared state between error objects)
+    objs = []
     for b in bufs:
+        try:
+            objs.append(SCSICheckCondition(bytearray(b)))
+        except Exception as ex:
+            objs.append(ex)
+    for b, e in zip(bufs, objs):
         rc = b[0] & 0x7F
         try:
-            e = SCSICheckCondition(bytearray(b))
+            if not isinstance(e, SCSICheckCondition):
+                raise e
             s = str(e)
             print_ok = True
             if getattr(e, "asc", None) is not None and "sense_key" in e.data:
